@@ -170,6 +170,7 @@ func runWebUI(env *execenv.Env, opts webUIOptions) error {
 		// default to true
 		configOpen = true
 	} else if err != nil {
+		_ = graphqlHandler.Close()
 		return err
 	}
 
@@ -184,6 +185,8 @@ func runWebUI(env *execenv.Env, opts webUIOptions) error {
 
 	err = srv.ListenAndServe()
 	if err != nil && err != http.ErrServerClosed {
+		// the server never ran: close the cache, which releases the lock
+		_ = graphqlHandler.Close()
 		return err
 	}
 
